@@ -517,7 +517,9 @@ func (fr *Frame) execBody(st0 *State) (*State, []Val) {
 	if fr.fc != nil {
 		for n := range fr.fc.Loops {
 			if n < 1 || n > len(loops) {
-				panic(contractErr(fmt.Sprintf("%s: contract names loop %d but function has %d loops", fr.fc.Key, n, len(loops))))
+				// nothing to check for a loop that is not there; what the invariant was needed for
+				// shows up in the obligations after it
+				fr.top.note(fmt.Sprintf("%s: contract names loop %d but function has %d loops: loop clause ignored", shortKey(fr.fc.Key), n, len(loops)))
 			}
 		}
 	}
